@@ -1167,6 +1167,36 @@ func TestVerifC40(t *testing.T) {
 		}
 		hist[n.Name] = per
 	}
+	// honestly encoded objects with LEGAL inner-transaction nesting (consensus allows inner app calls 8 deep;
+	// a few more levels for margin): decode(encode x) must succeed and re-encode to the same bytes
+	for i, n := range roots {
+		for _, d := range []int{1, 2, 3, 4, 5, 6, 7, 8, 9, 10, 12, 16} {
+			inner := vNested(d)
+			inner.ApplyData.EvalDelta.Logs = []string{"l"}
+			var obj vCodec
+			switch n.Name {
+			case "transactions.SignedTxnWithAD":
+				obj = &inner
+			case "transactions.EvalDelta":
+				obj = &inner.ApplyData.EvalDelta
+			case "transactions.ApplyData":
+				obj = &inner.ApplyData
+			case "transactions.SignedTxnInBlock":
+				obj = &transactions.SignedTxnInBlock{SignedTxnWithAD: inner}
+			case "transactions.Payset":
+				obj = &transactions.Payset{transactions.SignedTxnInBlock{SignedTxnWithAD: inner}}
+			case "bookkeeping.Block":
+				obj = &bookkeeping.Block{Payset: transactions.Payset{transactions.SignedTxnInBlock{SignedTxnWithAD: inner}}}
+			case "agreement.unauthenticatedProposal":
+				obj = &unauthenticatedProposal{Block: bookkeeping.Block{Payset: transactions.Payset{transactions.SignedTxnInBlock{SignedTxnWithAD: inner}}}}
+			default:
+				continue
+			}
+			vEmitEnc(out, n, tmpls[i], obj)
+			total++
+			hist[n.Name+"/nested"]++
+		}
+	}
 	// the pointer-to-zero-struct witness of Msgpack encoders_differ_refuted, replayed on the real encoders
 	{
 		var tx transactions.Transaction
